@@ -430,6 +430,37 @@ def r02_4(ctx, prog, crate):
                           "TSC read sequence is %s, expected %s" % (list(seq), want), b.where(p[-1]))
 
 
+def r02_6(ctx, prog, crate):
+    """What is attributed to a sample is that sample's own: the tally overhead subtracted from a sample's duration is
+    computed from the allocation record of the SAME raw sample (total_overhead(.., &s.alloc_info) next to s.duration()),
+    never from another thread's or another round's record."""
+    from lib.symexpr import Sym, show
+    sites = [c for c in prog.callers_of("total_overhead", crates=[crate]) if "::tests::" not in c.body.path and c.callee.endswith("::total_overhead")]
+    if not ctx.anchor("R02.6", "total_overhead call sites", sites, 1):
+        return
+    for c in sites:
+        b = c.body
+        ctx.saw(b)
+        S = Sym(b, site_args=True)
+        ai = S.op(c.args[-1])
+        durs = [x for x in b.live_calls() if x.callee.endswith("RawSample::duration")]
+        ok = len(durs) >= 1
+        owner = None
+        if ok:
+            # alloc_info of X, duration of the same X
+            if ai[0] in ("arg", "upvar") and ai[2][-1:] == ("alloc_info",):
+                owner = (ai[0], ai[1], ai[2][:-1])
+            elif ai[0] == "field" and ai[2][-1:] == ("alloc_info",):
+                owner = ai[1] if len(ai[2]) == 1 else ("field", ai[1], ai[2][:-1])
+            ok = owner is not None and all(S.op(x.args[0]) == owner for x in durs)
+        ctx.check(ok, "R02.6", [b.path, "overhead-from-the-same-samples-record"],
+                  "the overhead is computed from %s but subtracted from the duration of %s" % (show(ai), [show(S.op(x.args[0])) for x in durs] or "no sample in this body"),
+                  c.line(), detail={"alloc_info": show(ai)})
+        # the owner is a per-sample value: the closure's own parameter (called once per raw sample, R05.2 same-raw-sample)
+        ctx.check(owner is not None and owner[0] == "arg" and b.kind == "Closure", "R02.6", [b.path, "per-sample"],
+                  "the overhead is not computed per raw sample (owner %s)" % (show(owner) if owner else None), c.line())
+
+
 def r02_5(ctx, prog, crate):
     """The figures of a sample are the operations between its two timestamps ONLY if the clear before the start timestamp
     really resets the tally: ThreadAllocInfo::clear is unconditional and total (clause shared with C10, R10.5)."""
@@ -439,6 +470,7 @@ def r02_5(ctx, prog, crate):
 
 
 def run(ctx, prog, crate):
+    r02_6(ctx, prog, crate)
     r02_5(ctx, prog, crate)
     rec = r02_1(ctx, prog, crate)
     r02_2(ctx, prog, crate, rec)
